@@ -1034,6 +1034,13 @@ const INJECT: [&[u8]; 50] = [
 
 fn mutate(rng: &mut Rng, v: &[u8], fam: Fam) -> Vec<u8> {
     let mut b = v.to_vec();
+    // a 16-bit field (nested length, count, code) set to a boundary value: length arithmetic near 0xFFFF must not wrap or panic
+    if b.len() >= 2 && rng.chance(1, if matches!(fam, Fam::Alg | Fam::Algs) { 4 } else { 10 }) {
+        let p = 2 * rng.below((b.len() / 2) as u64) as usize;
+        let w = *rng.pick(&[0xFFFFu16, 0xFFFE, 0xFFFD, 0xFFFC, 0xFFFB, 0xFFF8, 0x8000, 0x7FFF, 0x0100, 0x00FF]);
+        b[p..p + 2].copy_from_slice(&w.to_be_bytes());
+        return b;
+    }
     let stringy = matches!(fam, Fam::Text | Fam::Quoted | Fam::User | Fam::Err | Fam::AErr);
     let choice = if stringy { rng.below(7) } else { rng.below(5) };
     match choice {
